@@ -178,19 +178,21 @@ class Body:
 
     def _annotate(self):
         """every place dict gets '@' = the block it occurs in (the use site, for reaching-definition lookups)"""
-        def walk(x, b):
+        def walk(x, b, i):
             if isinstance(x, dict):
                 if 'l' in x and 's' in x and '@' not in x:
                     x['@'] = b
+                    x['@i'] = i
                 for v in x.values():
                     if isinstance(v, (dict, list)):
-                        walk(v, b)
+                        walk(v, b, i)
             elif isinstance(x, list):
                 for y in x:
-                    walk(y, b)
+                    walk(y, b, i)
         for b, bl in enumerate(self.blocks):
-            walk(bl['stmts'], b)
-            walk(bl['term'], b)
+            for i, st in enumerate(bl['stmts']):
+                walk(st, b, i)
+            walk(bl['term'], b, 1 << 30)
 
     # ---- naming
     def local_name(self, i):
@@ -455,7 +457,7 @@ class Body:
             self._reach_cache[k] = r
         return r
 
-    def single_def_at(self, l, at=None):
+    def single_def_at(self, l, at=None, at_i=None):
         """the one definition of local l that reaches block `at`: the only definition, or - when several exist - the only one from which
         `at` can be reached without passing another definition of l (definitions in unreachable blocks do not count)"""
         ds = [x for x in self.defs().get(l, []) if x[2] != 'partial']
@@ -467,6 +469,11 @@ class Body:
         ds = [d for d in ds if d[0] in live]
         if len(ds) == 1:
             return ds[0]
+        if at_i is not None:
+            # a definition earlier in the block of the use kills everything before it
+            same = [d for d in ds if d[0] == at and d[1] != 'term' and d[1] < at_i]
+            if same:
+                return max(same, key=lambda d: d[1])
         blocks = frozenset(d[0] for d in ds)
         if len(blocks) != len(ds):
             return None                     # two definitions in one block: order matters, give up
@@ -520,7 +527,7 @@ class Body:
             return {'kind': 'local', 'l': l}
         if 1 <= l <= self.arg_count:
             return {'kind': 'arg', 'l': l, 'name': self.local_name(l)}
-        sd = self.single_def_at(l, p.get('@'))
+        sd = self.single_def_at(l, p.get('@'), p.get('@i'))
         if sd is None:
             return {'kind': 'local', 'l': l, 'name': self.local_name(l), 'ndefs': len(self.defs().get(l, []))}
         b, i, kind, payload = sd
@@ -562,7 +569,7 @@ class Body:
         at = p.get('@')
         if pr[0] == '*':
             return None             # through a reference: the referent is what matters (deref_origin), not the pointer's history
-        sd = self.single_def_at(p['l'], at)
+        sd = self.single_def_at(p['l'], at, p.get('@i'))
         if sd is None:
             return None
         b, i, kind, payload = sd
@@ -570,6 +577,7 @@ class Body:
         def mk(base, rest):
             q = {'l': base['l'], 'p': (list(base.get('p') or []) + list(rest)) or None, 's': base.get('s', '') + '~', 'ty': ''}
             q['@'] = b
+            q['@i'] = i if isinstance(i, int) else (1 << 30)
             return q
         if kind == 'call':
             c = payload['callee']
